@@ -351,6 +351,16 @@ def run(ctx: Context, rep) -> None:
                                  for r in raised), loc=cr.loc(),
                where=cr.qualname, construct="raise DatasetExistsError(...)",
                message="refusal is reported with the dedicated error")
+    from sa.rules import c04
+    c04.check_dump(ctx, rep, "C08.group")
+    c04.check_fresh_records(ctx, rep, "C08.fresh")
+    c04.check_delta(ctx, rep, "C08.delta")
+    rep.rule(
+        "C08.group",
+        "a continued session keeps every earlier record: all updates of a "
+        "split are grouped and merged together, accounting stays balanced "
+        "and re-attached child records are fresh merge results (same checks "
+        "as C04.dump / C04.fresh / C04.delta)")
     c06.check_who(ctx, rep, "C08.nodestroy")
 
 
